@@ -1112,3 +1112,25 @@ Proof.
   - intros l I X. apply (D1 l I), in_or_app. left. apply exposed_incl_reads, X.
   - intros l I X. apply (D2 l I), in_or_app. left. apply exposed_incl_reads, X.
 Qed.
+
+(* generic version of [exec_steq] for any runner with the frame property *)
+Lemma frame_ok_steq (r : runner) s1 s1' tr c s2 :
+  frame_ok r -> steq s1 s2 -> r s1 = Ok s1' tr c ->
+  exists s2', r s2 = Ok s2' tr c /\ steq s1' s2'.
+Proof.
+  intros Hr [Hv Hb] H.
+  destruct (Hr _ _ _ _ H s2 (eq_sym Hb)) as [s2' [R1 [R2 [R3 R4]]]];
+    [intros l _; symmetry; apply Hv|].
+  destruct (frame_ok_wb _ Hr _ _ _ _ H) as [Wb Wv].
+  exists s2'. split; [exact R1|]. split.
+  - intro l. destruct (in_dec loc_eq_dec l (writes tr)) as [I|N].
+    + symmetry. apply R3, I.
+    + rewrite R4, Wv by exact N. apply Hv.
+  - congruence.
+Qed.
+
+(* ------------------------------------------------------------------------------------------ *)
+(* Assumption audit: all three must print "Closed under the global context". *)
+Print Assumptions exec_mono.
+Print Assumptions exec_frame.
+Print Assumptions bernstein.
